@@ -200,3 +200,168 @@ Theorem C01_headers_no_oob : forall bs et b, bytes_ok bs ->
   PacketHeaders.from_ip_slice bs <> Bug b.
 Proof. exact hdr_never_bug_raw. Qed.
 Print Assumptions C01_headers_no_oob.
+
+(* ---- extend-c01b ---- *)
+(* ======================================================================== *)
+(* Accessors, conversions and iterators reachable from the LAX results
+   (LaxSlicedPacket::from_ethernet / from_ether_type / from_ip): the components
+   of a lax result are the strict slice types, built by the lax constructors;
+   models in Parse/LaxAccess.v (reusing Parse/Access.v), proofs in
+   Parse/LaxAccessProofs.v + LaxAccessPacket.v.  No hypothesis about the stop error:
+   the statements hold for results that stopped anywhere. *)
+From EP Require Import Parse.LaxAccess Parse.LaxAccessProofs Parse.LaxAccessPacket.
+
+(* every component stored in a lax whole-packet result was produced by the corresponding
+   constructor on a window of the input (lax_sliced_wf: link, VLAN / LaxMacsecSlice link
+   extensions, LaxIpSlice::from_slice for the net layer, UdpSlice::from_slice_lax /
+   TcpSlice / Icmpv4Slice / Icmpv6Slice::from_slice for the transport layer, at most 3
+   link extensions) and satisfies the per-type invariant of Parse/AccessProofs.v
+   (lax_sliced_inv: wf_eth2, wf_vlan, wf_macsech, wf_ipv4h, wf_ah, wf_ipv6h, exts_good,
+   wf_arp, wf_udp, wf_tcp, wf_icmp4, wf_icmp6, every window inside the input) *)
+Theorem C01_lax_sliced_wf : forall bs et p, lax_entry bs et p ->
+  lax_sliced_wf bs p /\ lax_sliced_inv bs p.
+Proof. exact lax_packet_wf. Qed.
+Print Assumptions C01_lax_sliced_wf.
+
+(* no accessor / to_header / to_packet / extension-iterator run (and no accessor of a
+   yielded extension header), no LaxLinkExtSlice::{header_len,to_header,payload}, no
+   LaxIpSlice accessor and none of LaxSlicedPacket::{vlan, vlan_ids (push_unchecked),
+   ether_payload, ip_payload} on any lax result returns Bug *)
+Theorem C01_lax_accessors_no_oob : forall bs et p, bytes_ok bs -> lax_entry bs et p ->
+  forall r, In r (LaxSlicedPacketA.accessors p) -> forall b, r <> Bug b.
+Proof. exact lax_packet_accessors_no_bug. Qed.
+Print Assumptions C01_lax_accessors_no_oob.
+
+(* every window stored in / returned from a lax result lies inside the input and holds
+   the input's bytes *)
+Theorem C01_lax_windows_inside : forall bs et p, bytes_ok bs -> lax_entry bs et p ->
+  forall r, In r (LaxSlicedPacketA.windows p) ->
+    exists w, r = Ok w /\ s_off w + s_len w <= len bs /\
+              snd w = take (s_len w) (drop (s_off w) bs).
+Proof. exact lax_packet_windows_inside. Qed.
+Print Assumptions C01_lax_windows_inside.
+
+(* the extension iterator on the Ipv6ExtensionsSlice of EVERY from_slice_lax result (any
+   start number, any slice, ANY stop error -- including a chain that was cut: the
+   next_header of the last complete header names an extension header, the slice is
+   exhausted): it terminates without Bug, yields only complete headers satisfying their
+   invariant, at most len/8 of them, and they tile the stored slice exactly.  This is what
+   the repaired `next()` (None on an empty rest, fix d1e93b9) provides. *)
+Theorem C01_lax_exts_iter_items : forall nh s x nx rest err,
+  LaxIpv6Exts.from_slice_lax nh s = Ok (x, nx, rest, err) ->
+  exists l, Ipv6ExtIterA.items x = Ok l /\
+            8 * len l <= s_len (x6_slice x) /\
+            tiles (s_off (x6_slice x)) (map item_win l) (s_off (x6_slice x) + s_len (x6_slice x)) /\
+            Forall item_wf l /\
+            Forall (fun i => sub_of (ext_item_slice i) (x6_slice x)) l.
+Proof. exact lax_exts_iter_items. Qed.
+Print Assumptions C01_lax_exts_iter_items.
+
+(* the same for the IPv6 slice stored in a lax whole-packet result *)
+Theorem C01_lax_packet_exts_iter : forall bs et p v,
+  lax_entry bs et p -> lsp_net p = Some (LNtIpv6 v) ->
+  exists l, Ipv6ExtIterA.items (lv6_exts v) = Ok l /\
+            8 * len l <= s_len (x6_slice (lv6_exts v)) /\
+            tiles (s_off (x6_slice (lv6_exts v))) (map item_win l)
+                  (s_off (x6_slice (lv6_exts v)) + s_len (x6_slice (lv6_exts v))) /\
+            Forall item_wf l /\
+            Forall (fun i => sub_of (ext_item_slice i) (x6_slice (lv6_exts v))) l.
+Proof. exact lax_packet_exts_iter. Qed.
+Print Assumptions C01_lax_packet_exts_iter.
+
+(* lax single layers, for EVERY slice s (no buffer) *)
+Theorem C01_lax_single_layer_accessors :
+  (forall s m, LaxMacsecSlice.from_slice s = Ok m ->
+     Forall nobug (LaxMacsecA.accessors m) /\ Forall (win_ok s) (LaxMacsecA.windows m)) /\
+  (forall s v, (exists stop, LaxIpv4Slice.from_slice s = Ok (v, stop)) \/
+               (exists stop, LaxIpSlice.from_slice s = Ok (LIpV4 v, stop)) ->
+     bytes_ok (snd s) ->
+     Forall nobug (LaxIpSliceA.accessors (LIpV4 v)) /\ Forall (win_ok s) (LaxIpSliceA.windows (LIpV4 v))) /\
+  (forall s v, (exists stop, LaxIpv6Slice.from_slice s = Ok (v, stop)) \/
+               (exists stop, LaxIpSlice.from_slice s = Ok (LIpV6 v, stop)) ->
+     bytes_ok (snd s) ->
+     Forall nobug (LaxIpSliceA.accessors (LIpV6 v)) /\ Forall (win_ok s) (LaxIpSliceA.windows (LIpV6 v)) /\
+     win_ok s (Ok (x6_slice (lv6_exts v)))).
+Proof. exact lax_single_layer_ok. Qed.
+Print Assumptions C01_lax_single_layer_accessors.
+
+(* ---- non-vacuity ---------------------------------------------------------- *)
+(* F2 witness: IPv6, payload length 8, a destination-options header whose next_header
+   announces a routing header that is not there.  Strict slicing rejects it; lax slicing
+   stops with a length error at offset 48 and stores the 8-byte chain; the iterator yields
+   exactly that one header although its next_header (43) names an extension header. *)
+Definition ex_cut_chain : bytes := [96;0;0;0; 0;8; 60; 64] ++ repeat 0 32 ++ [43;0;0;0;0;0;0;0].
+
+Example C01_lax_cut_chain_ex :
+  bytes_ok ex_cut_chain /\
+  (exists e, SlicedPacket.from_ip ex_cut_chain = Err e) /\
+  match LaxSlicedPacket.from_ip ex_cut_chain with
+  | Ok p =>
+      (match lsp_stop_err p with Some (ELen e, ly) => Some (le_off e, le_required e, le_len e, ly) | _ => None end,
+       length (LaxSlicedPacketA.accessors p), forallb isok (LaxSlicedPacketA.accessors p),
+       wins (LaxSlicedPacketA.windows p),
+       match lsp_net p with
+       | Some (LNtIpv6 v) =>
+           (x6_first (lv6_exts v),
+            match Ipv6ExtIterA.items (lv6_exts v) with Ok l => Some (map item_win l) | _ => None end,
+            lipp_number (lv6_payload v))
+       | _ => (None, None, 0)
+       end)
+  | _ => (None, 0%nat, false, [], (None, None, 0))
+  end =
+  (Some (48, 8, 0, LyIpv6RouteHeader), 22%nat, true,
+   [Some (0, 40); Some (40, 8); Some (48, 0);     (* IPv6 header, extension slice, payload *)
+    Some (40, 8); Some (42, 6)],                  (* yielded header, its payload() *)
+   (Some 60, Some [(40, 8)], 43)) /\
+  (* without the empty-rest check the next call would read out of bounds *)
+  Ipv6ExtIterA.arm (mkExtIter 43 (48, [])) Ipv6RawExtHeaderA.from_slice_unchecked
+    Ipv6RawExtHeaderA.next_header XRouting = Bug SITE_RD /\
+  Ipv6ExtIterA.next (mkExtIter 43 (48, [])) = Ok None.
+Proof.
+  split; [apply bytes_okb_spec; vm_compute; reflexivity|].
+  split; [eexists; vm_compute; reflexivity|]. split; [vm_compute; reflexivity|].
+  split; vm_compute; reflexivity.
+Qed.
+
+(* the Ethernet / VLAN / IPv4 / UDP packet of C01_accessors_ex cut to 47 bytes: strict
+   slicing rejects it (IPv4 total length), lax slicing keeps every layer (IPv4 payload
+   marked incomplete, UDP slice = what is left); 55 accessor runs Ok, 13 windows inside *)
+Example C01_lax_accessors_ex :
+  bytes_ok (firstn 47 ex_pkt_acc) /\
+  (exists e, SlicedPacket.from_ethernet (firstn 47 ex_pkt_acc) = Err e) /\
+  match LaxSlicedPacket.from_ethernet (firstn 47 ex_pkt_acc) with
+  | Ok p => (lsp_stop_err p, length (LaxSlicedPacketA.accessors p),
+             forallb isok (LaxSlicedPacketA.accessors p), wins (LaxSlicedPacketA.windows p),
+             LaxSlicedPacketA.vlan_ids p,
+             match lsp_net p with Some (LNtIpv4 v) => Some (lipp_incomplete (lv4_payload v)) | _ => None end)
+  | _ => (None, 0%nat, false, [], Bug 0, None)
+  end =
+  (None, 55%nat, true,
+   [Some (0, 47); Some (0, 14); Some (14, 33);           (* Ethernet II: slice, header, payload *)
+    Some (14, 33); Some (14, 4); Some (18, 29);          (* VLAN: slice, header, payload *)
+    Some (18, 20); Some (38, 9); Some (38, 0);           (* IPv4: header, payload, options *)
+    Some (38, 9); Some (38, 8); Some (46, 1);            (* UDP (lax): slice, header, payload *)
+    Some (18, 29)],                                      (* LaxSlicedPacket::ether_payload() *)
+   Ok [5], Some true).
+Proof.
+  split; [apply bytes_okb_spec; vm_compute; reflexivity|].
+  split; [eexists; vm_compute; reflexivity|vm_compute; reflexivity].
+Qed.
+
+(* MACsec (unmodified, short length 40 announces 38 payload bytes, 4 are present): the lax
+   MACsec slice hands out the 4 bytes that exist, flagged incomplete *)
+Example C01_lax_macsec_ex :
+  match LaxSlicedPacket.from_ethernet
+          [1;2;3;4;5;6; 7;8;9;10;11;12; 136;229;  0;40; 0;0;0;1; 8;0;  69;0;0;32] with
+  | Ok p => (forallb isok (LaxSlicedPacketA.accessors p), wins (LaxSlicedPacketA.windows p),
+             map (fun x => match x with
+                           | LLeMacsec m => match lms_payload m with
+                                            | LMpUnmodified e => Some (lep_incomplete e, lep_src e)
+                                            | _ => None end
+                           | _ => None end) (lsp_exts p))
+  | _ => (false, [], [])
+  end =
+  (true, [Some (0, 26); Some (0, 14); Some (14, 12); Some (14, 8); Some (22, 4); Some (22, 4)],
+   [Some (true, LsSlice)]).
+Proof. vm_compute. reflexivity. Qed.
+(* ---- end extend-c01b ---- *)
